@@ -97,6 +97,13 @@ class CodecFactory:
         self.kind, self.enc = kind, enc
 
 
+class CodecInfoV:
+    """codecs.lookup(enc): .streamwriter / .streamreader are the factories getwriter / getreader return"""
+
+    def __init__(self, enc):
+        self.enc = enc
+
+
 def _bytes_parts(v):
     if isinstance(v, BytesV):
         return list(v.parts), v.enc
@@ -118,6 +125,10 @@ class FileWriterWorld(QueryWorld):
         self.closed = False
 
     def load_attr(self, ip, obj, attr, node):
+        if isinstance(obj, CodecInfoV):
+            if attr in ("streamwriter", "streamreader"):
+                return CodecFactory(attr[6:], obj.enc)
+            raise Unsupported(node, "CodecInfo.%s" % attr)
         if isinstance(obj, (RowV, TextV, BytesV, FileRec, TextWriterV)) or (isinstance(obj, Const) and isinstance(obj.v, (str, bytes))):
             return BoundMethod(obj, attr)
         return super().load_attr(ip, obj, attr, node)
@@ -133,6 +144,8 @@ class FileWriterWorld(QueryWorld):
             return IterV([RowV(i) for i in range(self.k)])
         if isinstance(f, Opaque) and f.tag == "module:codecs.getwriter" and len(args) == 1 and not kwargs:
             return CodecFactory("writer", args[0])
+        if isinstance(f, Opaque) and f.tag == "module:codecs.lookup" and len(args) == 1 and not kwargs:
+            return CodecInfoV(args[0])
         if isinstance(f, CodecFactory) and f.kind == "writer" and len(args) >= 1 and isinstance(args[0], FileRec):
             return TextWriterV(args[0], f.enc)
         if isinstance(f, Opaque) and f.tag == "module:io.TextIOWrapper" and len(args) >= 1 and isinstance(args[0], FileRec):
@@ -531,6 +544,10 @@ class FileReaderWorld(QueryWorld):
     def load_attr(self, ip, obj, attr, node):
         if isinstance(obj, BinFile) and attr == "name":
             return Const("<path of the file>")
+        if isinstance(obj, CodecInfoV):
+            if attr in ("streamwriter", "streamreader"):
+                return CodecFactory(attr[6:], obj.enc)
+            raise Unsupported(node, "CodecInfo.%s" % attr)
         if isinstance(obj, (BinFile, ByteChunk, AllBytes, AllText, TextStream, TextLine)):
             return BoundMethod(obj, attr)
         return super().load_attr(ip, obj, attr, node)
@@ -559,6 +576,8 @@ class FileReaderWorld(QueryWorld):
             return Opaque("ids")
         if isinstance(f, Opaque) and f.tag == "module:codecs.getreader" and len(args) == 1 and not kwargs:
             return CodecFactory("reader", args[0])
+        if isinstance(f, Opaque) and f.tag == "module:codecs.lookup" and len(args) == 1 and not kwargs:
+            return CodecInfoV(args[0])
         if isinstance(f, CodecFactory) and f.kind == "reader" and len(args) >= 1 and isinstance(args[0], BinFile):
             return TextStream(f.enc)
         if isinstance(f, Opaque) and f.tag == "module:io.TextIOWrapper" and len(args) >= 1 and isinstance(args[0], BinFile):
